@@ -13,8 +13,8 @@ const SWEEP: u64 = 80;
 // families: 0 macro chain, 1 include chain, 2 macro cycle, 3 include cycle, 4 mixed chain, 5 macro->include cycle, 6 random mixes
 pub fn cases(tier: Tier) -> u64 {
     match tier {
-        Tier::Quick => SWEEP * 2 + 8 + 5 + 32 + 6 + 200,
-        Tier::Thorough => SWEEP * 2 + 8 + 5 + 32 + 6 + 6000,
+        Tier::Quick => SWEEP * 2 + 8 + 5 + 32 + 6 + 1500,
+        Tier::Thorough => SWEEP * 2 + 8 + 5 + 32 + 6 + 40000,
         Tier::Tiny => 6,
     }
 }
